@@ -204,8 +204,8 @@ def gen_c11(rng: random.Random) -> dict:
 class C11(CheckBase):
     pid = "C11"
     level = "exploration"
-    quick_cases = 4000
-    thorough_cases = 60000
+    quick_cases = 16000
+    thorough_cases = 160000
 
     def cases(self, rng: random.Random, tier: str, idx: int) -> Iterable[dict]:
         yield gen_c11(rng)
